@@ -165,6 +165,17 @@ def run(ctx, rep):
                 if extra:
                     ok = ok and A.src(ops[0]) == "name"
             why = "sends %s" % A.src(c)
+        if va and kw:
+            touched = [x for x in A.walk(f.node) if (
+                isinstance(x, ast.Call) and isinstance(x.func, ast.Attribute) and isinstance(x.func.value, ast.Name)
+                and x.func.value.id in (va, kw) and x.func.attr in ("pop", "popitem", "clear", "update", "setdefault", "remove"))
+                or (isinstance(x, (ast.Delete,)) and any(isinstance(t, ast.Subscript) and isinstance(t.value, ast.Name)
+                                                         and t.value.id in (va, kw) for t in x.targets))
+                or (isinstance(x, ast.Subscript) and isinstance(x.ctx, ast.Store) and isinstance(x.value, ast.Name) and x.value.id in (va, kw))]
+            rep.ob("R01.3", "%s: the caller's operands are forwarded untouched" % q.split(".", 2)[-1], not touched,
+                   "no keyword/positional operand is consumed or altered by the forwarder" if not touched else
+                   "`%s` takes an operand away from the call: a keyword the target itself accepts (e.g. its own `timeout=`) never "
+                   "reaches it" % A.src(touched[0])[:60], ctx.loc(touched[0]) if touched else f.loc, kind="site")
         rep.ob("R01.3", "%s forwards args and kwargs.items() in the published slots" % q.split(".", 2)[-1], ok,
                "(%sargs, tuple(kwargs.items()))" % ("name, " if extra else "") if ok else
                "positional or keyword operands are dropped/misplaced on the proxy side: %s" % why, f.loc)
